@@ -24,6 +24,6 @@ CONFIG = {
         "offsets/sizes are N (no uint64 wrap-around in off+len, no int64 cast overflow): harness inputs < 2^7, stated bound < 2^63",
         "hashing read of updateCachedDigest is one ReadAt (files <= 32 KiB in the harness); model reads [0,size) in one section",
         "liveness partial: proved = every parked call whose wake-up condition holds has had its channel closed (wake event enabled) and its step makes progress; not proved = the Go scheduler runs it, timers fire",
-        "harness parks at most one call per wake-up channel (the order in which several goroutines woken by one close() re-acquire f.lock is not controllable); the theorems cover any number of sleepers",
+        "harness parks at most two mutators (kinds whose wake-up order is visible in the pool file call log) and one upload per wake-up channel (the order in which goroutines woken by one close() re-acquire f.lock is observed, not controlled); the theorems cover any number of sleepers",
     ],
 }
